@@ -1,1 +1,483 @@
-From LQ Require Import Base.Str Kernels.LRU Kernels.CacheLoader.
+(** Proofs about Kernels/CacheLoader.v. *)
+From LQ Require Import Base.Str Kernels.LRU Kernels.CacheLoader Proofs.LRU_proofs.
+From Coq Require Import Lia.
+
+(** * Well-formedness of configurations and calls *)
+
+Definition wf_cfg (c : cfg) : Prop :=
+  1 <= c_cap c /\ (c_ns_aware c = true -> c_ns_key c = true).
+
+(** With a namespace key configured, every call passes a namespace that does
+    not contain "/" (guard of the known finding cache-key-collision). *)
+Definition wf_call (c : cfg) (ns : option str) : Prop :=
+  c_ns_key c = true -> exists n, ns = Some n /\ ~ In slash n.
+
+Definition wf_op (c : cfg) (o : op) : Prop :=
+  match o with Load _ ns _ _ => wf_call c ns | _ => True end.
+
+Lemma split_unique (a b a' b' : str) :
+  ~ In slash a -> ~ In slash a' -> a ++ slash :: b = a' ++ slash :: b' -> a = a' /\ b = b'.
+Proof.
+  revert a'. induction a as [|x a IH]; intros [|y a'] Ha Ha' E; simpl in *.
+  - inversion E; auto.
+  - inversion E; subst. exfalso; apply Ha'; auto.
+  - inversion E; subst. exfalso; apply Ha; auto.
+  - inversion E; subst. destruct (IH a') as [-> ->]; auto.
+Qed.
+
+Lemma cache_key_determines_source c name ns name' ns' :
+  wf_cfg c -> wf_call c ns -> wf_call c ns' ->
+  cache_key c name ns = cache_key c name' ns' ->
+  source_key c name ns = source_key c name' ns'.
+Proof.
+  intros [_ Hw] H1 H2. unfold cache_key, source_key, wf_call in *.
+  destruct (c_ns_key c) eqn:Ek.
+  - destruct (H1 eq_refl) as (n & -> & Hn). destruct (H2 eq_refl) as (n' & -> & Hn').
+    intro E. apply split_unique in E as [-> ->]; auto.
+  - destruct (c_ns_aware c); [specialize (Hw eq_refl); discriminate|]. auto.
+Qed.
+
+(** * Membership after cache operations *)
+
+Section Mem.
+Context {V : Type}.
+
+Lemma In_remove_key (k k' : str) (v' : V) l : In (k', v') (remove_key k l) -> In (k', v') l.
+Proof.
+  induction l as [|[k0 v0] l IH]; simpl; [tauto|].
+  destruct (str_eqb k k0); simpl; intuition.
+Qed.
+
+Lemma assoc_In (k : str) (v : V) l : assoc k l = Some v -> In (k, v) l.
+Proof.
+  induction l as [|[k0 v0] l IH]; simpl; [discriminate|].
+  destruct (str_eqb k k0) eqn:E.
+  - apply str_eqb_eq in E; subst. intro H; inversion H; auto.
+  - auto.
+Qed.
+
+Lemma In_lru_get (c c' : lru V) k v k' v' :
+  lru_get c k = Some (v, c') -> In (k', v') (od c') -> In (k', v') (od c).
+Proof.
+  unfold lru_get. destruct (assoc k (od c)) as [v0|] eqn:Ha; [|discriminate].
+  intro E; inversion E; subst; clear E. simpl. unfold od_move_to_end.
+  rewrite in_app_iff. simpl. intros [H|[H|[]]].
+  - eapply In_remove_key; eauto.
+  - inversion H; subst. apply assoc_In; auto.
+Qed.
+
+Lemma lru_get_In (c c' : lru V) k v : lru_get c k = Some (v, c') -> In (k, v) (od c).
+Proof.
+  unfold lru_get. destruct (assoc k (od c)) as [v0|] eqn:Ha; [|discriminate].
+  intro E; inversion E; subst. apply assoc_In; auto.
+Qed.
+
+Lemma In_lru_set (c : lru V) k v k' v' :
+  In (k', v') (od (lru_set c k v)) -> (k' = k /\ v' = v) \/ In (k', v') (od c).
+Proof.
+  unfold lru_set. destruct (assoc k (od c)) as [v0|]; simpl.
+  - unfold od_move_to_end. rewrite in_app_iff. simpl. intros [H|[H|[]]].
+    + right. eapply In_remove_key; eauto.
+    + inversion H; auto.
+  - rewrite in_app_iff. simpl. intros [H|[H|[]]].
+    + right. destruct (Nat.leb _ _); [apply In_tl|]; exact H.
+    + inversion H; auto.
+Qed.
+
+Lemma In_od_mutate k (f : V -> V) l k' v' :
+  In (k', v') (od_mutate k f l) -> In (k', v') l \/ exists v0, In (k', v0) l /\ v' = f v0.
+Proof.
+  induction l as [|[k0 v0] l IH]; simpl; [tauto|].
+  destruct (str_eqb k k0); simpl.
+  - intros [H|H]; [inversion H; subst; right; eauto|auto].
+  - intros [H|H]; [auto|]. apply IH in H as [H|(v1 & H & ->)]; eauto.
+Qed.
+
+End Mem.
+
+(** * The invariant *)
+
+Definition entry_ok (c : cfg) (s : st) (ck : str) (t : tmpl) : Prop :=
+  (t_ver t < next_ver s)%N /\ t_fresh t = c_fresh c /\
+  (forall ct, assoc (t_key t) (store s) = Some (ct, t_ver t) -> ct = t_content t) /\
+  (exists name ns, wf_call c ns /\ ck = cache_key c name ns /\ t_key t = source_key c name ns).
+
+Record Inv (c : cfg) (s : st) : Prop := {
+  inv_lru : lru_inv (cache s);
+  inv_cap : cap (cache s) = c_cap c;
+  inv_store : forall k ct v, assoc k (store s) = Some (ct, v) -> (v < next_ver s)%N;
+  inv_entries : forall ck t, In (ck, t) (od (cache s)) -> entry_ok c s ck t
+}.
+
+Lemma init_inv c : wf_cfg c -> Inv c (init c).
+Proof.
+  intros [Hc _]. constructor; simpl.
+  - apply lru_empty_inv; exact Hc.
+  - reflexivity.
+  - discriminate.
+  - tauto.
+Qed.
+
+Lemma entry_ok_set_globals c s ck t g : entry_ok c s ck t -> entry_ok c s ck (set_globals t g).
+Proof. unfold entry_ok. destruct t; simpl. auto. Qed.
+
+Lemma uncached_entry_ok c s name ns g a t fn :
+  Inv c s -> wf_call c ns -> uncached_load c s name ns g a = (Some t, fn) ->
+  entry_ok c s (cache_key c name ns) t.
+Proof.
+  intros HI Hw. unfold uncached_load.
+  destruct (fail_next s); [discriminate|].
+  destruct (assoc (source_key c name ns) (store s)) as [[ct v]|] eqn:Ea; [|discriminate].
+  intro E; inversion E; subst; clear E. unfold entry_ok; simpl. repeat split.
+  - eapply inv_store; eauto.
+  - intros ct' E'. congruence.
+  - exists name, ns. auto.
+Qed.
+
+Lemma entry_ok_same_store c s s' ck t :
+  store s' = store s -> next_ver s' = next_ver s -> entry_ok c s ck t -> entry_ok c s' ck t.
+Proof. unfold entry_ok. intros -> ->. auto. Qed.
+
+Lemma cached_load_inv c s name ns g a :
+  wf_cfg c -> Inv c s -> wf_call c ns -> Inv c (snd (cached_load c s name ns g a)).
+Proof.
+  intros Hc HI Hw. unfold cached_load.
+  destruct (lru_get (cache s) (cache_key c name ns)) as [[t ch1]|] eqn:Eg.
+  - destruct (lru_get_inv _ _ _ _ (inv_lru _ _ HI) Eg) as [Hi1 Hcap1].
+    assert (Hent1 : forall ck t', In (ck, t') (od ch1) -> entry_ok c s ck t').
+    { intros ck t' Hin. eapply inv_entries; eauto. eapply In_lru_get; eauto. }
+    destruct (c_auto_reload c && negb (is_up_to_date s t a)).
+    + destruct (uncached_load c s name ns g a) as [[t'|] fn] eqn:Eu; simpl.
+      * destruct (lru_set_inv ch1 (cache_key c name ns) t' Hi1) as [Hi2 Hcap2].
+        constructor; simpl; auto.
+        -- rewrite Hcap2, Hcap1. apply (inv_cap _ _ HI).
+        -- apply (inv_store _ _ HI).
+        -- intros ck t0 Hin. apply In_lru_set in Hin as [[-> ->]|Hin].
+           ++ eapply entry_ok_same_store; [| |eapply uncached_entry_ok; eauto]; reflexivity.
+           ++ eapply entry_ok_same_store; [| |apply Hent1; exact Hin]; reflexivity.
+      * constructor; simpl; auto.
+        -- rewrite Hcap1. apply (inv_cap _ _ HI).
+        -- apply (inv_store _ _ HI).
+    + simpl. constructor; simpl.
+      * apply lru_mutate_inv; exact Hi1.
+      * rewrite Hcap1. apply (inv_cap _ _ HI).
+      * apply (inv_store _ _ HI).
+      * intros ck t0 Hin. apply In_od_mutate in Hin as [Hin|(t1 & Hin & ->)].
+        -- apply Hent1; exact Hin.
+        -- apply entry_ok_set_globals. apply Hent1; exact Hin.
+  - destruct (uncached_load c s name ns g a) as [[t'|] fn] eqn:Eu; simpl.
+    + destruct (lru_set_inv (cache s) (cache_key c name ns) t' (inv_lru _ _ HI)) as [Hi2 Hcap2].
+      constructor; simpl; auto.
+      * rewrite Hcap2. apply (inv_cap _ _ HI).
+      * apply (inv_store _ _ HI).
+      * intros ck t0 Hin. apply In_lru_set in Hin as [[-> ->]|Hin].
+        -- eapply entry_ok_same_store; [| |eapply uncached_entry_ok; eauto]; reflexivity.
+        -- eapply entry_ok_same_store; [| |eapply inv_entries; eauto]; reflexivity.
+    + constructor; simpl; try apply HI.
+Qed.
+
+Lemma assoc_dict_set {V} (k k' : str) (v : V) l :
+  assoc k' (dict_set k v l) = if str_eqb k' k then Some v else assoc k' l.
+Proof.
+  induction l as [|[k0 v0] l IH]; simpl.
+  - destruct (str_eqb k' k); reflexivity.
+  - destruct (str_eqb k k0) eqn:E; simpl.
+    + apply str_eqb_eq in E; subst. destruct (str_eqb k' k0); reflexivity.
+    + rewrite IH. destruct (str_eqb k' k0) eqn:E2, (str_eqb k' k) eqn:E3; try reflexivity.
+      apply str_eqb_eq in E2, E3; subst. rewrite str_eqb_refl in E. discriminate.
+Qed.
+
+Lemma assoc_remove_key {V} (k k' : str) (l : list (str * V)) :
+  assoc k' (remove_key k l) = if str_eqb k' k then None else assoc k' l.
+Proof.
+  induction l as [|[k0 v0] l IH]; simpl.
+  - destruct (str_eqb k' k); reflexivity.
+  - destruct (str_eqb k k0) eqn:E; simpl.
+    + apply str_eqb_eq in E; subst. rewrite IH. destruct (str_eqb k' k0); reflexivity.
+    + rewrite IH. destruct (str_eqb k' k0) eqn:E2, (str_eqb k' k) eqn:E3; try reflexivity.
+      apply str_eqb_eq in E2, E3; subst. rewrite str_eqb_refl in E. discriminate.
+Qed.
+
+Lemma step_inv c s o : wf_cfg c -> Inv c s -> wf_op c o -> Inv c (snd (step c s o)).
+Proof.
+  intros Hc HI Hw. destruct o as [name ns g a|k content|k|]; simpl.
+  - apply cached_load_inv; auto.
+  - constructor; simpl; try apply HI.
+    + intros k' ct v. rewrite assoc_dict_set. destruct (str_eqb k' k).
+      * intro E; inversion E; subst. lia.
+      * intro E. apply (inv_store _ _ HI) in E. lia.
+    + intros ck t Hin. destruct (inv_entries _ _ HI ck t Hin) as (H1 & H2 & H3 & H4).
+      unfold entry_ok; simpl. repeat split; auto; [lia|].
+      intros ct. rewrite assoc_dict_set. destruct (str_eqb (t_key t) k).
+      * intro E; inversion E; subst. lia.
+      * apply H3.
+  - constructor; simpl; try apply HI.
+    + intros k' ct v. rewrite assoc_remove_key. destruct (str_eqb k' k); [discriminate|].
+      apply (inv_store _ _ HI).
+    + intros ck t Hin. destruct (inv_entries _ _ HI ck t Hin) as (H1 & H2 & H3 & H4).
+      unfold entry_ok; simpl. repeat split; auto.
+      intros ct. rewrite assoc_remove_key. destruct (str_eqb (t_key t) k); [discriminate|apply H3].
+  - constructor; simpl; apply HI.
+Qed.
+
+Lemma final_inv c ops : wf_cfg c -> Forall (wf_op c) ops -> forall s, Inv c s -> Inv c (final c s ops).
+Proof.
+  intros Hc Hf. induction Hf as [|o ops Ho _ IH]; simpl; intros s HI; [exact HI|].
+  apply IH. apply step_inv; auto.
+Qed.
+
+(** * Capacity and key uniqueness in every reachable state *)
+
+Lemma cache_le_capacity c ops :
+  wf_cfg c -> Forall (wf_op c) ops ->
+  lru_len (cache (final c (init c) ops)) <= c_cap c
+  /\ NoDup (lru_keys (cache (final c (init c) ops))).
+Proof.
+  intros Hc Hf. pose proof (final_inv c ops Hc Hf _ (init_inv c Hc)) as HI.
+  destruct (inv_lru _ _ HI) as (Hd & Hl & _). rewrite (inv_cap _ _ HI) in Hl.
+  split; [exact Hl|]. unfold lru_keys. apply NoDup_rev. exact Hd.
+Qed.
+
+(** * The caller's globals are always the ones bound *)
+
+Lemma loaded_globals_are_callers c s name ns g a ct g' :
+  fst (cached_load c s name ns g a) = Loaded ct g' -> g' = g.
+Proof.
+  unfold cached_load, uncached_load.
+  destruct (lru_get (cache s) (cache_key c name ns)) as [[t ch1]|].
+  - destruct (c_auto_reload c && negb (is_up_to_date s t a)).
+    + destruct (fail_next s); simpl; [discriminate|].
+      destruct (assoc _ _) as [[? ?]|]; simpl; [|discriminate].
+      intro E; inversion E; reflexivity.
+    + simpl. intro E; inversion E; reflexivity.
+  - destruct (fail_next s); simpl; [discriminate|].
+    destruct (assoc _ _) as [[? ?]|]; simpl; [|discriminate].
+    intro E; inversion E; reflexivity.
+Qed.
+
+(** * What the non-caching loader answers (absent an injected fault) *)
+
+Definition truth (c : cfg) (s : st) (name : str) (ns : option str) (g : N) : obs :=
+  match assoc (source_key c name ns) (store s) with
+  | Some (ct, _) => Loaded ct g
+  | None => NotFound
+  end.
+
+Lemma uncached_is_truth c s name ns g a :
+  fail_next s = false -> fst (uncached_step c s (Load name ns g a)) = truth c s name ns g.
+Proof.
+  intro Hf. simpl. unfold uncached_load, truth. rewrite Hf.
+  destruct (assoc _ _) as [[? ?]|]; reflexivity.
+Qed.
+
+Lemma uncached_load_obs c s name ns g a :
+  match uncached_load c s name ns g a with
+  | (Some t, _) => Loaded (t_content t) (t_globals t) = truth c s name ns g /\ fail_next s = false
+  | (None, _) => truth c s name ns g = NotFound \/ fail_next s = true
+  end.
+Proof.
+  unfold uncached_load, truth. destruct (fail_next s); [auto|].
+  destruct (assoc _ _) as [[? ?]|]; simpl; auto.
+Qed.
+
+(** * Transparency under auto-reload with freshness information *)
+
+Lemma cached_load_fresh c s name ns g a :
+  wf_cfg c -> Inv c s -> wf_call c ns ->
+  c_auto_reload c = true -> c_fresh c = true ->
+  fst (cached_load c s name ns g a) = truth c s name ns g
+  \/ (fail_next s = true /\ fst (cached_load c s name ns g a) = NotFound).
+Proof.
+  intros Hc HI Hw Har Hfr. unfold cached_load.
+  pose proof (uncached_load_obs c s name ns g a) as Hu.
+  destruct (lru_get (cache s) (cache_key c name ns)) as [[t ch1]|] eqn:Eg.
+  - rewrite Har. simpl.
+    destruct (is_up_to_date s t a) eqn:Eup; simpl.
+    + (* served from the cache: it is up to date, hence equal to the source *)
+      left. apply lru_get_In in Eg.
+      destruct (inv_entries _ _ HI _ _ Eg) as (_ & Hf & Hct & name' & ns' & Hw' & Hk & Hs).
+      unfold is_up_to_date in Eup. rewrite Hf, Hfr in Eup. simpl in Eup.
+      assert (Hm : mtime_same s t = true).
+      { destruct a; [exact Eup|]. destruct (t_async t); [discriminate|exact Eup]. }
+      unfold mtime_same in Hm.
+      destruct (assoc (t_key t) (store s)) as [[ct v]|] eqn:Ea; [|discriminate].
+      apply N.eqb_eq in Hm; subst v. rewrite (Hct ct eq_refl) in Ea.
+      unfold truth.
+      rewrite (cache_key_determines_source c name ns name' ns' Hc Hw Hw' Hk), <- Hs, Ea.
+      reflexivity.
+    + destruct (uncached_load c s name ns g a) as [[t'|] fn]; simpl.
+      * left. apply Hu.
+      * destruct Hu as [Hu|Hu]; [left; symmetry; exact Hu|right; auto].
+  - destruct (uncached_load c s name ns g a) as [[t'|] fn]; simpl.
+    + left. apply Hu.
+    + destruct Hu as [Hu|Hu]; [left; symmetry; exact Hu|right; auto].
+Qed.
+
+(** * Namespace isolation: whatever the cache holds under the key of
+      (name, ns) was read from the source of (name, ns) *)
+
+Lemma cached_entry_source c s name ns t :
+  wf_cfg c -> Inv c s -> wf_call c ns ->
+  In (cache_key c name ns, t) (od (cache s)) -> t_key t = source_key c name ns.
+Proof.
+  intros Hc HI Hw Hin.
+  destruct (inv_entries _ _ HI _ _ Hin) as (_ & _ & _ & name' & ns' & Hw' & Hk & Hs).
+  rewrite Hs. symmetry. apply cache_key_determines_source; auto.
+Qed.
+
+(** * Without auto-reload / freshness: a served template is a cached entry;
+      and every cached entry was produced by a load for the same cache key,
+      and has stayed in the cache since.  [origin] is stated over histories. *)
+
+Definition keys_of (s : st) : list str := keys (od (cache s)).
+
+(** [loaded_before c ops ck ct]: at some earlier point of [ops] a Load whose
+    cache key is [ck] obtained content [ct] from the non-caching loader, and
+    [ck] has been in the cache after every step since. *)
+Definition loaded_before (c : cfg) (ops : list op) (ck : str) (ct : N) : Prop :=
+  exists ops1 name ns g a ops2,
+    ops = ops1 ++ Load name ns g a :: ops2 /\
+    cache_key c name ns = ck /\
+    fail_next (final c (init c) ops1) = false /\
+    truth c (final c (init c) ops1) name ns g = Loaded ct g /\
+    forall n, In ck (keys_of (final c (init c) (ops1 ++ firstn (S n) (Load name ns g a :: ops2)))).
+
+Lemma final_app c s ops1 ops2 : final c s (ops1 ++ ops2) = final c (final c s ops1) ops2.
+Proof. revert s. induction ops1 as [|o ops1 IH]; simpl; intro s; [reflexivity|apply IH]. Qed.
+
+Lemma final_snoc c s ops o : final c s (ops ++ [o]) = snd (step c (final c s ops) o).
+Proof. rewrite final_app. reflexivity. Qed.
+
+Lemma loaded_before_extend c ops o ck ct :
+  loaded_before c ops ck ct ->
+  In ck (keys_of (final c (init c) (ops ++ [o]))) ->
+  loaded_before c (ops ++ [o]) ck ct.
+Proof.
+  intros (ops1 & name & ns & g & a & ops2 & -> & Hk & Hf & Ht & Hall) Hin.
+  exists ops1, name, ns, g, a, (ops2 ++ [o]). repeat split; auto.
+  - rewrite <- app_assoc. reflexivity.
+  - intro n. specialize (Hall n). simpl in *.
+    destruct (Nat.le_gt_cases n (length ops2)) as [Hle|Hgt].
+    + rewrite firstn_app. replace (n - length ops2) with 0 by lia.
+      simpl. rewrite app_nil_r. exact Hall.
+    + rewrite firstn_all2 by (rewrite app_length; simpl; lia).
+      rewrite <- app_assoc in Hin. simpl in Hin. exact Hin.
+Qed.
+
+Lemma In_keys {V} (k : str) (v : V) l : In (k, v) l -> In k (keys l).
+Proof. intro H. unfold keys. change k with (fst (k, v)). apply in_map. exact H. Qed.
+
+Lemma Forall_snoc_inv {A} (P : A -> Prop) l x : Forall P (l ++ [x]) -> Forall P l /\ P x.
+Proof.
+  intro H. apply Forall_app in H as [H1 H2]. inversion H2; auto.
+Qed.
+
+Theorem entries_loaded_before c ops :
+  wf_cfg c -> Forall (wf_op c) ops ->
+  forall ck t, In (ck, t) (od (cache (final c (init c) ops))) ->
+               loaded_before c ops ck (t_content t).
+Proof.
+  intro Hc. induction ops as [|o ops IH] using rev_ind; intros Hf ck t Hin.
+  - simpl in Hin. contradiction.
+  - apply Forall_snoc_inv in Hf as [Hf Ho]. specialize (IH Hf).
+    assert (Hkey : In ck (keys_of (final c (init c) (ops ++ [o])))).
+    { unfold keys_of. eapply In_keys; eauto. }
+    rewrite final_snoc in Hin.
+    set (s := final c (init c) ops) in *.
+    assert (Hold : forall t0, In (ck, t0) (od (cache s)) -> t_content t0 = t_content t ->
+                              loaded_before c (ops ++ [o]) ck (t_content t)).
+    { intros t0 Hin0 <-. apply loaded_before_extend; auto. }
+    destruct o as [name ns g a|k content|k|]; simpl in Hin;
+      try (apply (Hold t Hin eq_refl)).
+    (* Load *)
+    unfold cached_load in Hin.
+    assert (Hnew : forall t' fn, uncached_load c s name ns g a = (Some t', fn) ->
+                   loaded_before c (ops ++ [Load name ns g a]) (cache_key c name ns) (t_content t')).
+    { intros t' fn Eu. exists ops, name, ns, g, a, []. 
+      pose proof (uncached_load_obs c s name ns g a) as Hu. rewrite Eu in Hu.
+      destruct Hu as [Hu1 Hu2]. repeat split; auto.
+      - fold s. rewrite <- Hu1. f_equal.
+        unfold uncached_load in Eu. rewrite Hu2 in Eu.
+        destruct (assoc _ _) as [[? ?]|]; inversion Eu; reflexivity.
+      - intro n. simpl. rewrite firstn_nil.
+        (* the key is in the cache after this very step *)
+        rewrite final_snoc. fold s. simpl. unfold cached_load.
+        destruct (lru_get (cache s) (cache_key c name ns)) as [[t1 ch1]|] eqn:Eg.
+        + destruct (c_auto_reload c && negb (is_up_to_date s t1 a)).
+          * rewrite Eu. simpl. unfold keys_of. simpl.
+            unfold lru_set. destruct (assoc _ (od ch1)); simpl;
+              [unfold od_move_to_end|]; rewrite keys_app, in_app_iff; simpl; auto.
+          * simpl. unfold keys_of. simpl. rewrite od_mutate_keys.
+            unfold lru_get in Eg. destruct (assoc _ _) eqn:Ea; [|discriminate].
+            inversion Eg; subst. simpl. unfold od_move_to_end.
+            rewrite keys_app, in_app_iff; simpl; auto.
+        + rewrite Eu. simpl. unfold keys_of. simpl.
+          unfold lru_set. destruct (assoc _ (od (cache s))); simpl;
+            [unfold od_move_to_end|]; rewrite keys_app, in_app_iff; simpl; auto. }
+    destruct (lru_get (cache s) (cache_key c name ns)) as [[t1 ch1]|] eqn:Eg.
+    + destruct (c_auto_reload c && negb (is_up_to_date s t1 a)).
+      * destruct (uncached_load c s name ns g a) as [[t'|] fn] eqn:Eu; simpl in Hin.
+        -- apply In_lru_set in Hin as [[-> ->]|Hin]; [eapply Hnew; eauto|].
+           eapply Hold; [eapply In_lru_get; eauto|reflexivity].
+        -- eapply Hold; [eapply In_lru_get; eauto|reflexivity].
+      * simpl in Hin. apply In_od_mutate in Hin as [Hin|(t0 & Hin & ->)].
+        -- eapply Hold; [eapply In_lru_get; eauto|reflexivity].
+        -- eapply Hold; [eapply In_lru_get; eauto|]. destruct t0; reflexivity.
+    + destruct (uncached_load c s name ns g a) as [[t'|] fn] eqn:Eu; simpl in Hin.
+      * apply In_lru_set in Hin as [[-> ->]|Hin]; [eapply Hnew; eauto|].
+        eapply Hold; eauto.
+      * eapply Hold; eauto.
+Qed.
+
+(** * The full transparency statement *)
+
+Theorem caching_transparent c ops name ns g a :
+  wf_cfg c -> Forall (wf_op c) ops -> wf_call c ns ->
+  let s := final c (init c) ops in
+  let ob := fst (step c s (Load name ns g a)) in
+  (* what the non-caching loader gives at this moment *)
+  ob = truth c s name ns g
+  (* or nothing, if the source is failing during this step *)
+  \/ (fail_next s = true /\ ob = NotFound)
+  (* or - only without auto-reload or without freshness information - what an
+     earlier load for the same cache key obtained, the entry not having left
+     the cache since; in every case with the caller's own globals *)
+  \/ ((c_auto_reload c && c_fresh c = false) /\
+      exists ct, ob = Loaded ct g /\ loaded_before c ops (cache_key c name ns) ct).
+Proof.
+  intros Hc Hf Hw s ob.
+  pose proof (final_inv c ops Hc Hf _ (init_inv c Hc)) as HI. fold s in HI.
+  destruct (c_auto_reload c && c_fresh c) eqn:Eaf.
+  - apply andb_true_iff in Eaf as [Har Hfr].
+    destruct (cached_load_fresh c s name ns g a Hc HI Hw Har Hfr) as [H|H]; auto.
+  - subst ob. simpl. unfold cached_load.
+    pose proof (uncached_load_obs c s name ns g a) as Hu.
+    destruct (lru_get (cache s) (cache_key c name ns)) as [[t ch1]|] eqn:Eg.
+    + destruct (c_auto_reload c && negb (is_up_to_date s t a)).
+      * destruct (uncached_load c s name ns g a) as [[t'|] fn]; simpl.
+        -- left. apply Hu.
+        -- destruct Hu as [Hu|Hu]; [left; symmetry; exact Hu|right; left; auto].
+      * simpl. right. right. split; [reflexivity|]. exists (t_content t). split; [reflexivity|].
+        apply lru_get_In in Eg. apply (entries_loaded_before c ops Hc Hf _ _ Eg).
+    + destruct (uncached_load c s name ns g a) as [[t'|] fn]; simpl.
+      * left. apply Hu.
+      * destruct Hu as [Hu|Hu]; [left; symmetry; exact Hu|right; left; auto].
+Qed.
+
+(** Non-vacuity: a concrete history with a cache hit, an eviction and a reload
+    satisfies the hypotheses. *)
+Example transparent_example :
+  let c := {| c_cap := 1; c_auto_reload := true; c_ns_key := true; c_ns_aware := true; c_fresh := true |} in
+  let u := [117%N] in let a := [97%N] in let b := [98%N] in
+  let ops := [Modify (u ++ slash :: a) 7; Modify (u ++ slash :: b) 8;
+              Load a (Some u) 1 false; Load a (Some u) 0 false; Load b (Some u) 0 false;
+              Modify (u ++ slash :: b) 9] in
+  wf_cfg c /\ Forall (wf_op c) ops /\
+  map fst (run c (init c) (ops ++ [Load b (Some u) 2 false])) =
+    [Quiet; Quiet; Loaded 7 1; Loaded 7 0; Loaded 8 0; Quiet; Loaded 9 2].
+Proof.
+  intros c u a b ops. split; [split; [simpl; lia|intros _; reflexivity]|]. split.
+  - repeat constructor; simpl; try (intros _; eexists; split; [reflexivity|]; simpl;
+      intros [H|[]]; discriminate).
+  - vm_compute. reflexivity.
+Qed.
